@@ -16,6 +16,7 @@ from . import common as cm
 from . import gen
 from . import lib
 from qce_circuit.structure.intrf_acquisition_operation import IAcquisitionOperation, AcquisitionTag
+from qce_circuit.structure.intrf_circuit_operation_composite import CircuitCompositeOperation
 
 PROPERTY = 'C07'
 FUNCTIONS = ['AcquisitionRegistry.get_registry_at', 'DispersiveMeasure.acquisition_index', 'DispersiveMeasure.circuit_level_acquisition_index',
@@ -73,6 +74,26 @@ def check_indices(ctx, u, ops, info):
     meas = [o for o in ops if isinstance(o, IAcquisitionOperation)]
     cl = [o.circuit_level_acquisition_index for o in meas]
     ctx.observe('circuit_level', cl)
+    # fingerprint of known finding F3-C07 (root cause of F3: composites compare by value): the registry of a measurement was re-targeted,
+    # by a value-keyed lookup in copy(), to a *different* block that compares equal to the circuit it was bound to; exactly those
+    # measurements report -1, every other index is exact
+    top = u.circuit_structure
+
+    def _ref(o):
+        return getattr(getattr(getattr(o, 'acquisition_strategy', None), 'registry', None), 'reference_circuit', None)
+    nested = []
+
+    def _walk(comp):
+        for k in cm.composite_children(comp):
+            if isinstance(k, CircuitCompositeOperation):
+                nested.append(k)
+                _walk(k)
+    _walk(top)
+    # (the value equality holds at the moment of the copy; what remains observable is where the registry points afterwards)
+    misdirected = [k for k, o in enumerate(meas) if _ref(o) is not None and _ref(o) is not top and any(_ref(o) is b for b in nested)
+                   and not any(x is o for x in _ref(o).decomposed_operations())]
+    info = dict(info, registry_points_at_nested_block_without_the_measurement=bool(misdirected),
+                exact_apart_from_misdirected=bool(misdirected) and all((cl[k] == -1) if k in misdirected else (cl[k] == k) for k in range(len(meas))))
     ctx.check('C07.circuit_level', cl == list(range(len(meas))), dict(info, indices=cl, qubits=[o.qubit_index for o in meas]))
     qubits = sorted(set(o.qubit_index for o in meas) | set(QUBITS))
     for q in qubits:
@@ -90,7 +111,7 @@ def check_indices(ctx, u, ops, info):
             ctx.check('C07.filter_tag', got_t == want, dict(info, qubit=q, tag=t, filter=got_t, expected=want))
         flat = [x for v in by_tag.values() for x in v]
         ctx.check('C07.tag_partition', sorted(flat) == ql and len(set(flat)) == len(flat), dict(info, qubit=q, by_tag=by_tag))
-    return meas
+    return meas, info
 
 
 def check_record(ctx, u, meas, info):
@@ -128,7 +149,7 @@ def run(ctx, params):
         u = c.apply_modifiers()
         ops = u.operations
         info = {'spec': params['library'], 'preread': params.get('preread')}
-        meas = check_indices(ctx, u, ops, info)
+        meas, info = check_indices(ctx, u, ops, info)
         check_record(ctx, u, meas, info)
         return
     g = cm.Globals(ctx)
@@ -138,7 +159,7 @@ def run(ctx, params):
             u = c.apply_modifiers()
             ops = u.operations
             info = {'spec': params['library']}
-            meas = check_indices(ctx, u, ops, info)
+            meas, info = check_indices(ctx, u, ops, info)
             check_record(ctx, u, meas, info)
             check_time_order(ctx, meas, 'C07.time_order.library', info)
             return
@@ -148,7 +169,7 @@ def run(ctx, params):
         u = built.circuit.apply_modifiers()
         ops = u.operations
         info = {'implicit': params['implicit'], 'preread': params.get('preread')}
-        meas = check_indices(ctx, u, ops, info)
+        meas, info = check_indices(ctx, u, ops, info)
         check_record(ctx, u, meas, info)
         if params['implicit']:
             # fingerprint of known finding F13: a block that is repeated (count > 1) ends in more than one relation leaf, i.e. it has
